@@ -242,7 +242,7 @@ func Run(r *vk.Run) {
 		go func() {
 			defer wg.Done()
 			for c := range ch {
-				run(r, c)
+				r.Guard(c, func() { run(r, c) })
 			}
 		}()
 	}
